@@ -4,7 +4,7 @@
    ExcelCompiler._evaluate; tied to the source by the real-thread schedule
    enumeration and the static inventory of harness/props/c07.py). *)
 From Coq Require Import ZArith QArith List.
-From PV Require Import Lib.Py Model.Iter Model.Threads Proofs.C07.
+From PV Require Import Lib.Py Model.Iter Model.Threads Proofs.C07 Proofs.C07Ser Proofs.C07Warm.
 Import ListNotations.
 
 (* threads with their own namespace working on different compilers: for EVERY
@@ -33,3 +33,174 @@ Theorem C07_fresh : forall cf kinds comps sched t,
   m_phase (g_m (run cf sched (fresh_process kinds comps)) t) <> PMissing.
 Proof. exact fresh. Qed.
 Print Assumptions C07_fresh.
+
+(* ---- serializability, any number of threads, the result in user terms
+   (proofs: Proofs/C07Ser.v).  Global states hold functions, "the same global
+   state" is pointwise equality [geq]. ---- *)
+
+(* any number of threads: a list of threads with pairwise different namespaces
+   and compilers, any schedule made of them: every one of them sees its solo run.
+   (Threads that do not run need not be disjoint from anything.) *)
+Theorem C07_n_threads : forall cf ths sched G t,
+  (forall a b, In a ths -> In b ths -> a <> b -> c_ns cf a <> c_ns cf b /\ c_comp cf a <> c_comp cf b) ->
+  (forall u, In u sched -> In u ths) -> In t ths ->
+  view cf t (run cf sched G) = view cf t (run cf (only t sched) G).
+Proof. exact n_threads. Qed.
+Print Assumptions C07_n_threads.
+
+(* the WHOLE global state (all machines, all namespaces, all compilers) after any
+   schedule is the state after the serial schedule: the threads one after the
+   other in any fixed order, each with its own steps *)
+Theorem C07_serializable : forall cf order sched G,
+  (forall a b, In a sched -> In b sched -> a <> b -> c_ns cf a <> c_ns cf b /\ c_comp cf a <> c_comp cf b) ->
+  NoDup order -> (forall t, In t sched -> In t order) ->
+  (forall t, g_m (run cf sched G) t = g_m (run cf (flat_map (fun t => only t sched) order) G) t) /\
+  (forall i, g_ns (run cf sched G) i = g_ns (run cf (flat_map (fun t => only t sched) order) G) i) /\
+  (forall i, g_k (run cf sched G) i = g_k (run cf (flat_map (fun t => only t sched) order) G) i).
+Proof. exact serializable. Qed.
+Print Assumptions C07_serializable.
+
+(* two schedules with the same per-thread projections end in the same global state *)
+Theorem C07_same_projections : forall cf s1 s2 G,
+  (forall a b, In a s1 -> In b s1 -> a <> b -> c_ns cf a <> c_ns cf b /\ c_comp cf a <> c_comp cf b) ->
+  (forall t, only t s1 = only t s2) ->
+  (forall t, g_m (run cf s1 G) t = g_m (run cf s2 G) t) /\
+  (forall i, g_ns (run cf s1 G) i = g_ns (run cf s2 G) i) /\
+  (forall i, g_k (run cf s1 G) i = g_k (run cf s2 G) i).
+Proof. exact same_projections. Qed.
+Print Assumptions C07_same_projections.
+
+(* steps of two threads with different namespaces and compilers commute *)
+Theorem C07_steps_commute : forall cf a b G,
+  a <> b -> c_ns cf a <> c_ns cf b -> c_comp cf a <> c_comp cf b ->
+  (forall t, g_m (gstep cf (gstep cf G a) b) t = g_m (gstep cf (gstep cf G b) a) t) /\
+  (forall i, g_ns (gstep cf (gstep cf G a) b) i = g_ns (gstep cf (gstep cf G b) a) i) /\
+  (forall i, g_k (gstep cf (gstep cf G a) b) i = g_k (gstep cf (gstep cf G b) a) i).
+Proof. exact steps_commute. Qed.
+Print Assumptions C07_steps_commute.
+
+(* in user terms: in every schedule in which thread t has run to completion
+   (returned, raised, or - excluded by C07_fresh - read a missing attribute) its
+   machine, hence the value it returns, its pass count and its outcome, is that of
+   running t alone for any number n of steps that is at least its own steps *)
+Theorem C07_result_alone : forall cf t sched G n,
+  (forall u, In u sched -> u <> t -> c_ns cf u <> c_ns cf t /\ c_comp cf u <> c_comp cf t) ->
+  final (m_phase (g_m (run cf sched G) t)) = true ->
+  (length (only t sched) <= n)%nat ->
+  g_m (run cf sched G) t = g_m (run cf (repeat t n) G) t /\
+  (m_phase (g_m (run cf sched G) t), m_res (g_m (run cf sched G) t), m_passes (g_m (run cf sched G) t))
+  = (m_phase (g_m (run cf (repeat t n) G) t), m_res (g_m (run cf (repeat t n) G) t),
+     m_passes (g_m (run cf (repeat t n) G) t)).
+Proof. exact result_alone. Qed.
+Print Assumptions C07_result_alone.
+
+(* completion does not depend on the schedule: t has finished exactly if t alone
+   has finished after the same number of its own steps *)
+Theorem C07_completion_alone : forall cf t sched G,
+  (forall u, In u sched -> u <> t -> c_ns cf u <> c_ns cf t /\ c_comp cf u <> c_comp cf t) ->
+  final (m_phase (g_m (run cf sched G) t))
+  = final (m_phase (g_m (run cf (repeat t (length (only t sched))) G) t)).
+Proof. exact completion_alone. Qed.
+Print Assumptions C07_completion_alone.
+
+(* ... and two schedules in which t made the same number of steps show t the same *)
+Theorem C07_same_count_same_view : forall cf t s1 s2 G,
+  (forall u, In u (s1 ++ s2) -> u <> t -> c_ns cf u <> c_ns cf t /\ c_comp cf u <> c_comp cf t) ->
+  length (only t s1) = length (only t s2) ->
+  view cf t (run cf s1 G) = view cf t (run cf s2 G).
+Proof. exact same_count_same_view. Qed.
+Print Assumptions C07_same_count_same_view.
+
+(* sensitivity: the disjointness of the namespaces is needed.  Two threads on
+   different compilers that SHARE the namespace (a module-level object without
+   threading.local, what _IterativeEvalTracker.ns and the array-context stack
+   were): there are workloads and a schedule on which what a thread gets back
+   (outcome, value, pass count) and what it sees differ from its solo run *)
+Theorem C07_shared_namespace_interferes :
+  exists cf kinds comps sched t,
+    (forall a b, a <> b -> c_comp cf a <> c_comp cf b) /\
+    c_ns cf 0%nat = c_ns cf 1%nat /\
+    (m_phase (g_m (run cf sched (fresh_process kinds comps)) t),
+     m_res (g_m (run cf sched (fresh_process kinds comps)) t),
+     m_passes (g_m (run cf sched (fresh_process kinds comps)) t))
+    <> (m_phase (g_m (run cf (only t sched) (fresh_process kinds comps)) t),
+        m_res (g_m (run cf (only t sched) (fresh_process kinds comps)) t),
+        m_passes (g_m (run cf (only t sched) (fresh_process kinds comps)) t)) /\
+    view cf t (run cf sched (fresh_process kinds comps))
+      <> view cf t (run cf (only t sched) (fresh_process kinds comps)).
+Proof. exact shared_namespace_interferes. Qed.
+Print Assumptions C07_shared_namespace_interferes.
+
+(* the same for the array-context stack: with one stack for both threads, a thread
+   that is inside a formula sees a stack that is deeper than in its solo run (the
+   top entry is the other thread's) *)
+Theorem C07_shared_context_stack_interferes :
+  exists cf kinds comps sched t,
+    (forall a b, a <> b -> c_comp cf a <> c_comp cf b) /\
+    c_ns cf 0%nat = c_ns cf 1%nat /\
+    ctx_addresses (the_ctx (g_ns (run cf sched (fresh_process kinds comps)) (c_ns cf t)))
+    <> ctx_addresses (the_ctx (g_ns (run cf (only t sched) (fresh_process kinds comps)) (c_ns cf t))).
+Proof. exact shared_context_stack_interferes. Qed.
+Print Assumptions C07_shared_context_stack_interferes.
+
+(* fresh vs warmed-up threads (proofs: Proofs/C07Warm.v): an evaluate(address,
+   iterations, tolerance) that starts on a namespace holding WHATEVER earlier
+   operations of the thread left in the tracker (todo, computed, iteration number,
+   iterations, tolerance - present or not) and on a namespace that does not exist
+   yet, with the same array-context stack (balanced: [False], or not yet created),
+   gives the same machine (outcome, value, pass count, entries) and the same
+   compiler contents after every schedule *)
+Theorem C07_warm_equals_fresh : forall cf t sched G G' tg it tolv,
+  (forall u, In u sched -> u <> t -> c_ns cf u <> c_ns cf t /\ c_comp cf u <> c_comp cf t) ->
+  g_m G t = start (KEval tg it tolv) -> g_m G' t = start (KEval tg it tolv) ->
+  g_k G (c_comp cf t) = g_k G' (c_comp cf t) ->
+  the_ctx (g_ns G (c_ns cf t)) = the_ctx (g_ns G' (c_ns cf t)) ->
+  g_m (run cf sched G) t = g_m (run cf sched G') t /\
+  g_k (run cf sched G) (c_comp cf t) = g_k (run cf sched G') (c_comp cf t).
+Proof. exact warm_equals_fresh. Qed.
+Print Assumptions C07_warm_equals_fresh.
+
+(* every step reads the thread's namespace only through what the `ns` properties
+   return: a namespace that does not exist yet and the one they create are
+   indistinguishable for every operation (evaluate, set_value, cell construction) *)
+Theorem C07_namespace_lazy : forall w m n n' k,
+  the_ns n = the_ns n' /\ the_ctx n = the_ctx n' ->
+  fst (fst (tstep w m n k)) = fst (fst (tstep w m n' k)) /\
+  snd (tstep w m n k) = snd (tstep w m n' k) /\
+  (the_ns (snd (fst (tstep w m n k))) = the_ns (snd (fst (tstep w m n' k))) /\
+   the_ctx (snd (fst (tstep w m n k))) = the_ctx (snd (fst (tstep w m n' k)))).
+Proof. exact tstep_lazy. Qed.
+Print Assumptions C07_namespace_lazy.
+
+(* the other half of the hypothesis is needed as well (the property speaks of
+   DIFFERENT compiled workbooks): two threads with their own namespaces evaluating
+   the SAME compiler - there are workloads and a schedule on which what a thread
+   gets back (outcome, value, pass count) differs from its solo run *)
+Theorem C07_shared_compiler_interferes :
+  exists cf kinds comps sched t,
+    (forall a b, a <> b -> c_ns cf a <> c_ns cf b) /\
+    c_comp cf 0%nat = c_comp cf 1%nat /\
+    (m_phase (g_m (run cf sched (fresh_process kinds comps)) t),
+     m_res (g_m (run cf sched (fresh_process kinds comps)) t),
+     m_passes (g_m (run cf sched (fresh_process kinds comps)) t))
+    <> (m_phase (g_m (run cf (only t sched) (fresh_process kinds comps)) t),
+        m_res (g_m (run cf (only t sched) (fresh_process kinds comps)) t),
+        m_passes (g_m (run cf (only t sched) (fresh_process kinds comps)) t)).
+Proof. exact shared_compiler_interferes. Qed.
+Print Assumptions C07_shared_compiler_interferes.
+
+(* fresh vs warmed-up threads, set_value on an iterative compiler: whatever the
+   thread's tracker namespace holds (absent, or any todo / computed / iteration
+   number / iterations / tolerance left by earlier operations - the two attributes
+   the setter reads exist, which C07_fresh guarantees for every reachable
+   namespace), the outcome and the compiler's contents are the same, after every
+   schedule *)
+Theorem C07_set_value_warm_equals_fresh : forall cf t sched G G' c v,
+  (forall u, In u sched -> u <> t -> c_ns cf u <> c_ns cf t /\ c_comp cf u <> c_comp cf t) ->
+  g_m G t = start (KSet c v) -> g_m G' t = start (KSet c v) ->
+  g_k G (c_comp cf t) = g_k G' (c_comp cf t) ->
+  ns_ok (g_ns G (c_ns cf t)) -> ns_ok (g_ns G' (c_ns cf t)) ->
+  g_m (run cf sched G) t = g_m (run cf sched G') t /\
+  g_k (run cf sched G) (c_comp cf t) = g_k (run cf sched G') (c_comp cf t).
+Proof. exact set_value_warm_equals_fresh. Qed.
+Print Assumptions C07_set_value_warm_equals_fresh.
